@@ -60,6 +60,14 @@ func (s *store) GetTimestampOracle(ctx context.Context) (timestamp uint64, err e
 
 // Get implements storage.KvStorage interface
 func (s *store) Get(ctx context.Context, key []byte) (val []byte, err error) {
+	// writers and iterators modify the skip list: a point read must hold the lock as well
+	s.mu.Lock()
+	defer s.mu.Unlock()
+	return s.get(key)
+}
+
+// get reads the skip list; the caller must hold the lock.
+func (s *store) get(key []byte) (val []byte, err error) {
 	elem := s.skl.Get(key)
 	if elem == nil {
 		return nil, storage.ErrKeyNotFound
